@@ -32,6 +32,8 @@ fn record_biased_schema(rng: &mut Rng) -> RSchema {
 	for _ in 0..6 {
 		let mut cfg = SchemaGenCfg::default();
 		cfg.max_nodes = *rng.pick(&[8, 16, 30]);
+		// (serialization only: decimals over a fixed wider than 16 bytes can be written from text)
+		cfg.allow_big_fixed_decimal = true;
 		let rs = gen_schema(rng, &cfg);
 		let nrec = rs
 			.nodes
